@@ -122,21 +122,43 @@ def main(argv=None):
     res = run_pool(list(range(len(_UNITS))), a.jobs)
 
     # ---- helper (contract) failures: re-verify dependent lemmas with the helper's body inlined (DESIGN 2.7)
+    def failed(r):
+        return bool(r['error'] or r['out_of_reach'] or any(o['status'] != 'discharged' for o in r['obligations']))
     bad_contracts = set()
     for i, r in res.items():
         u = _UNITS[i]
-        if u.kind == 'contract' and (r['error'] or r['out_of_reach'] or any(o['status'] != 'discharged' for o in r['obligations'])):
+        if u.kind == 'contract' and failed(r):
             bad_contracts.add(u.contract.qual)
     reran = []
+    excl = {}
+    _OPTS['exclude'] = excl
+    # contracts verified against failed callee contracts are re-verified with those callee bodies inlined; one that then fails is
+    # itself failed (fixpoint), so that a defect below a chain of contracts reaches the property-level lemmas
+    for _round in range(8):
+        idxs = []
+        for i, u in enumerate(_UNITS):
+            if u.kind != 'contract' or u.contract.qual in bad_contracts:
+                continue
+            used = set(c.qual for c in u.contracts) & bad_contracts
+            if used and excl.get(u.name) != used:
+                excl[u.name] = used
+                idxs.append(i)
+        if not idxs:
+            break
+        for i, r in run_pool(idxs, a.jobs).items():
+            r['inlined_contracts'] = sorted(excl[_UNITS[i].name])
+            reran.append(_UNITS[i].name)
+            if failed(r):
+                bad_contracts.add(_UNITS[i].contract.qual)      # keeps its first (modular) result, reported as HELPER-OPEN
+            else:
+                res[i] = r
     if bad_contracts:
-        excl = {}
         idxs = []
         for i, u in enumerate(_UNITS):
             used = set(c.qual for c in u.contracts) & bad_contracts
             if used and u.kind != 'contract':
                 excl[u.name] = used
                 idxs.append(i)
-        _OPTS['exclude'] = excl
         res2 = run_pool(idxs, a.jobs)
         for i, r in res2.items():
             r['inlined_contracts'] = sorted(excl[_UNITS[i].name])
@@ -152,6 +174,7 @@ def main(argv=None):
     # ---- classify
     baseline_names = load_baseline()
     unknown_baseline = []
+    broken_helpers = []       # loop invariants / helper obligations of property-level units that held on the unchanged tree and no longer do
     errors, undecided, refuted_prop, helper_open = [], [], [], []
     for i, r in res.items():
         for nm in r.get('lemmas_used', []):
@@ -189,9 +212,13 @@ def main(argv=None):
                     refuted_prop.append((u, o))
                 else:
                     helper_open.append((u.name, o['label'], 'refuted'))
+                    if u.level == 'property' and ('%s/%s' % (u.name, o['label'])) in baseline_names:
+                        broken_helpers.append((u, o))
             else:
                 if u.level == 'property' and o['kind'] in ('post', 'pre') and ('%s/%s' % (u.name, o['label'])) in baseline_names:
                     unknown_baseline.append((u, o))
+                elif u.level == 'property' and ('%s/%s' % (u.name, o['label'])) in baseline_names:
+                    broken_helpers.append((u, o))
                 undecided.append((u.name, o['label'] + ' unknown'))
 
     # ---- concrete side: replays, witnesses, twins
@@ -259,10 +286,26 @@ def main(argv=None):
             # a proved clause that fails concretely means the engine is unsound on this unit: checker malfunction
             proved = any(o['label'] == f['label'] and o['status'] == 'discharged' for i, r in res.items() if _UNITS[i].name == t['unit'] for o in r['obligations'])
             anyopen = any(o['label'] == f['label'] and o['status'] != 'discharged' for i, r in res.items() if _UNITS[i].name == t['unit'] for o in r['obligations'])
-            if proved and not anyopen and not _UNITS[names.index(t['unit'])].bounded:
+            # ... unless the proof was conditional on a loop invariant / helper obligation of the same unit that is itself open
+            conditional = any(o['status'] != 'discharged' for i, r in res.items() if _UNITS[i].name == t['unit'] for o in r['obligations'])
+            if proved and not anyopen and not conditional and not _UNITS[names.index(t['unit'])].bounded:
                 errors.append((t['unit'], 'ENGINE-UNSOUND: clause %s proved on all paths but fails concretely: %s' % (f['label'], path)))
             else:
                 violations.append((path, full, ''))
+    # a loop invariant (or other helper obligation) of a property-level unit that was discharged on the unchanged tree and is not any
+    # more: every clause of that unit was proved under it, so the unit no longer establishes the property.  If neither a counter-model
+    # nor the executable twin produced a failing input for the unit, the named obligation is reported without one.
+    for u, o in broken_helpers:
+        full = '%s/%s' % (u.name, o['label'])
+        if any(v[1].startswith(u.name + '/') for v in violations):
+            continue
+        path = os.path.join('replays', '%s-%s.json' % (prop, hashlib.sha1(full.encode()).hexdigest()[:10]))
+        json.dump({'property': prop, 'unit': u.name, 'label': o['label'], 'obligation': full, 'inputs': None, 'solver': o['solver'], 'solver_secs': o['secs'],
+                   'solver_output': '%s (%s)' % (o['status'], o.get('detail') or 'counter-model is over havoc-ed loop state, not over inputs'),
+                   'note': 'loop invariant / helper obligation inside a property-level unit; discharged on the unchanged tree (baseline-obligations.txt), '
+                           'not any more; the clauses of this unit were proved under it'},
+                  open(os.path.join(VERIF, path), 'w'), indent=1)
+        violations.append((path, full, ' no-failing-input-found'))
     known_lines = []
     for k, w in zip(known, conc['witnesses']):
         if w.get('status') in ('ok', 'vacuous') and w.get('evaluated', 0) == 0:
